@@ -36,3 +36,6 @@ pub use crate::ring_buffer::variants::local_rb::LocalMutRingBuf;
 
 pub mod iterators;
 mod ring_buffer;
+
+#[cfg(feature = "verif-hooks")]
+pub mod verif_hooks;
